@@ -33,4 +33,18 @@ theorem C06_code_empty (r : QReg ℝ) (mask : Nat) (ds : List Nat) (h : mask &&&
     quant_measure_mask (ofModel r) mask ds = some (cregOfModel (CReg.new r.qNum), ofModel r, ds) := by
   rw [quant_measure_mask_eq, if_pos h]
 
+/-- **measuring the same qubits again with the translated `measure_mask` returns the same classical value**, whichever
+index of non-zero amplitude is drawn the second time (both calls consume one draw each) -/
+theorem C06_code_repeat (r : QReg ℝ) (mask d d₂ : Nat) (rest : List Nat) (hne : mask &&& r.qMask ≠ 0)
+    (hd₂ : bufFn (r.measureMask mask d).1.psi d₂ ≠ 0) :
+    ∃ (c : CRegG) (q₁ q₂ : QRegG ℝ),
+      quant_measure_mask (ofModel r) mask (d :: d₂ :: rest) = some (c, q₁, d₂ :: rest) ∧
+      quant_measure_mask q₁ mask (d₂ :: rest) = some (c, q₂, rest) := by
+  have hne' : mask &&& (r.measureMask mask d).1.qMask ≠ 0 := by rw [measure_qMask]; exact hne
+  refine ⟨cregOfModel (r.measureMask mask d).2, ofModel (r.measureMask mask d).1,
+    ofModel ((r.measureMask mask d).1.measureMask mask d₂).1, by rw [quant_measure_mask_eq, if_neg hne], ?_⟩
+  rw [quant_measure_mask_eq, if_neg hne']
+  show some (cregOfModel ((r.measureMask mask d).1.measureMask mask d₂).2, _, rest) = _
+  rw [C06_repeat r mask d d₂ hd₂]
+
 end Qvnt
